@@ -35,6 +35,22 @@ def gen_items(rng, maxn=8):
     return items
 
 
+def gen_items_dense(rng):
+    """value, separator, value, separator, ... (search mode: many adjacent value pairs, many strings)"""
+    items = []
+    for k in range(rng.randint(2, 5)):
+        if rng.random() < 0.6:
+            v = values.gen_str(rng, 16).replace('"', '')
+            items.append(('v', 'STRING', v))
+        else:
+            ty = rng.choice(['INTEGER', 'LONG', 'SINGLE', 'DOUBLE'])
+            items.append(('v', ty, values.gen_value(rng, ty)))
+        items.append((rng.choice([';', ',']),))
+    if rng.random() < 0.6:
+        items.pop()
+    return items
+
+
 def item_tokens(items):
     """model request tokens; number text of floats comes from the real format_number (external repr)"""
     toks = []
@@ -86,7 +102,7 @@ def literal(ty, v):
     return None
 
 
-def program_for(rng, items):
+def program_for(rng, items, literal_bias=0.4):
     """a program printing `items` through variables / expressions, in a random context"""
     lines = []
     exprs = []
@@ -100,7 +116,7 @@ def program_for(rng, items):
         name = f'v{k}{values.TYPE_CHAR[ty]}'
         how = rng.random()
         if ty == 'STRING':
-            if how < 0.4:
+            if how < literal_bias:
                 exprs.append('"' + v + '"')
             elif how < 0.7 and len(v) >= 2:
                 lines.append(f'{name} = "{v[:1]}" + "{v[1:]}"')
@@ -146,6 +162,44 @@ def program_for(rng, items):
     else:
         body = lines + ['GOSUB pr', 'END', 'pr:', stmt, 'RETURN']
     return '\n'.join(body) + '\n'
+
+
+def compiled_case(task):
+    """worker: (src, items) -> ([(O, g, text)], [(encoded cells at the io instruction, O, g)])"""
+    src, items = task
+    from qvm.machine import TerminalDevice
+    texts, protos = [], []
+    for (o, g) in real.CONFIGS:
+        st = real.try_compile(src, o, g)
+        if st[0] != 'ok':
+            texts.append((o, g, 'compile:' + st[0] + ':' + type(st[1]).__name__))
+            continue
+        snaps = []
+        orig = TerminalDevice._exec_print
+
+        def spy(self, _orig=orig, _snaps=snaps):
+            _snaps.append([(c.type.name, c.value) for c in self.cpu.stack])
+            _orig(self)
+        TerminalDevice._exec_print = spy
+        try:
+            r = real.run_bytes(st[2])
+        finally:
+            TerminalDevice._exec_print = orig
+        texts.append((o, g, real.text_of(r.trace) if r.outcome[0] == 'end' else 'outcome:' + str(r.outcome)))
+        if len(snaps) == 1:
+            cells = snaps[0]
+            n = cells[-1][1] if cells and cells[-1][0] == 'INTEGER' else -1
+            args = cells[-1 - n:-1] if 0 <= n < len(cells) else None
+            enc = []
+            for (t, v) in (args or []):
+                if t == 'INTEGER' and (not enc or enc[-1] != 'I 0'):
+                    enc.append(f'I {v}')
+                elif t == 'STRING':
+                    enc.append('S ' + core.enc_str(v))
+                else:
+                    enc.append('N ' + core.enc_str(format_number(v, CT[t])))
+            protos.append(((' '.join(enc) + f' I {n}').strip(), o, g))
+    return texts, protos
 
 
 def run(chk):
@@ -203,69 +257,59 @@ def run(chk):
     chk.samples += [{'items': cases[i], 'text': core.dec_str(exp[i])} for i in (3, 5, 7, 9) if i < len(cases)]
 
     # ---- correspondence B: compiled PRINT statements, all six configurations
-    nB = chk.n(60, 1200)
-    progs = 0
-    mism = 0
-    reqsB, expB, meta = [], [], []
-    protoB = []
-    tries = 0
-    while progs < nB and tries < nB * 20:
-        tries += 1
-        items = gen_items(rng, 6)
-        src = program_for(rng, items)
-        if src is None:
-            continue
-        progs += 1
-        texts = []
-        for (o, g) in real.CONFIGS:
-            st = real.try_compile(src, o, g)
-            if st[0] != 'ok':
-                texts.append((o, g, 'compile:' + st[0] + ':' + type(st[1]).__name__))
-                continue
-            snaps = []
-            from qvm.machine import TerminalDevice
-            orig = TerminalDevice._exec_print
+    meta_all = []
 
-            def spy(self, _orig=orig, _snaps=snaps):
-                _snaps.append([(c.type.name, c.value) for c in self.cpu.stack])
-                _orig(self)
-            TerminalDevice._exec_print = spy
-            try:
-                r = real.run_bytes(st[2])
-            finally:
-                TerminalDevice._exec_print = orig
-            texts.append((o, g, real.text_of(r.trace) if r.outcome[0] == 'end' else 'outcome:' + str(r.outcome)))
-            if len(snaps) == 1:
-                cells = snaps[0]
-                n = cells[-1][1] if cells and cells[-1][0] == 'INTEGER' else -1
-                args = cells[-1 - n:-1] if 0 <= n < len(cells) else None
-                enc = []
-                for (t, v) in (args or []):
-                    if t == 'INTEGER' and (not enc or enc[-1] != 'I 0' or False):
-                        enc.append(f'I {v}')
-                    elif t == 'STRING':
-                        enc.append('S ' + core.enc_str(v))
-                    else:
-                        enc.append('N ' + core.enc_str(format_number(v, CT[t])))
-                protoB.append(('pencode ' + ' '.join(item_tokens(items)), (' '.join(enc) + f' I {n}').strip(), src, o, g))
-        for (o, g, t) in texts:
-            reqsB.append('print ' + ' '.join(item_tokens(items)))
-            expB.append(core.enc_str(t))
-            meta.append((src, o, g, items))
-    badB = chk.corr('print-compiled', reqsB, expB, describe=lambda i: {'src': meta[i][0], 'O': meta[i][1], 'g': meta[i][2]})
-    for i in badB[:3]:
-        src, o, g, items = meta[i]
-        chk.finding(f'C17 compiled PRINT text differs from the specified layout',
-                    'text passed to terminal_print != layout(items)',
-                    {'kind': 'compiled', 'src': src, 'O': o, 'g': g, 'items': items, 'real': core.dec_str(expB[i]) if not expB[i].startswith('c') else expB[i]})
-    if chk.model and protoB:
-        gotp = [g.strip() for g in chk.model.ask([p[0] for p in protoB])]
-        badp = [i for i, g in enumerate(gotp) if g != protoB[i][1]]
-        chk.stats['print-protocol-compiled'] = {'cases': len(protoB), 'disagree': len(badp)}
-        for i in badp[:3]:
-            chk.broken.append(('correspondence', 'print-protocol-compiled',
-                               {'request': protoB[i][0], 'model': gotp[i], 'real': protoB[i][1], 'src': protoB[i][2]}))
-            chk.say('print-protocol-compiled', protoB[i][2], '|', gotp[i], '|', protoB[i][1])
+    def compiled_round(n, literal_bias):
+        tasks = []
+        tries = 0
+        while len(tasks) < n and tries < n * 20:
+            tries += 1
+            items = gen_items_dense(rng) if literal_bias > 0.5 and rng.random() < 0.7 else gen_items(rng, 6)
+            src = program_for(rng, items, literal_bias if literal_bias <= 0.5 else 0.5)
+            if src is not None:
+                tasks.append((src, items))
+        res = real.pmap(compiled_case, tasks)
+        reqsB, expB, meta, protoB = [], [], [], []
+        for (src, items), (texts, protos) in zip(tasks, res):
+            for (o, g, t) in texts:
+                reqsB.append('print ' + ' '.join(item_tokens(items)))
+                expB.append(core.enc_str(t))
+                meta.append((src, o, g, items))
+            for (enc, o, g) in protos:
+                protoB.append(('pencode ' + ' '.join(item_tokens(items)), enc, src, o, g))
+        badB = chk.corr('print-compiled', reqsB, expB, describe=lambda i: {'src': meta[i][0], 'O': meta[i][1], 'g': meta[i][2]})
+        for i in badB[:3]:
+            src, o, g, items = meta[i]
+            chk.finding('C17 compiled PRINT text differs from the specified layout',
+                        'text passed to terminal_print != layout(items)',
+                        {'kind': 'compiled', 'src': src, 'O': o, 'g': g, 'items': items,
+                         'real': core.dec_str(expB[i]) if not expB[i].startswith('c') else expB[i]})
+        if chk.model and protoB:
+            gotp = [g.strip() for g in chk.model.ask([p[0] for p in protoB])]
+            badp = [i for i, g in enumerate(gotp) if g != protoB[i][1]]
+            st = chk.stats.setdefault('print-protocol-compiled', {'cases': 0, 'disagree': 0})
+            st['cases'] += len(protoB)
+            st['disagree'] += len(badp)
+            for i in badp[:3]:
+                chk.broken.append(('correspondence', 'print-protocol-compiled',
+                                   {'request': protoB[i][0], 'model': gotp[i], 'real': protoB[i][1], 'src': protoB[i][2]}))
+            if badp:
+                chk.say('print-protocol-compiled disagrees, e.g.', protoB[badp[0]][2].replace('\n', ' / '))
+        meta_all.extend(meta)
+        return len(tasks), len(reqsB)
+
+    progs, nreq = compiled_round(chk.n(60, 1200), 0.4)
+    nB_total = nreq
+    # a proof obligation / the correspondence broke without a concrete wrong text yet: search the real code for one
+    rounds = 0
+    while chk.broken and not chk.violations and rounds < chk.n(3, 8):
+        rounds += 1
+        chk.say(f'search round {rounds}: more compiled PRINT statements (literal-heavy) for a failing input')
+        p2, n2 = compiled_round(400, 0.75)
+        progs += p2
+        nB_total += n2
+    reqsB = [None] * nB_total
+    meta = meta_all
     if meta:
         chk.samples.append({'program': meta[0][0], 'configs': 6})
     chk.cov['input_distribution'] = dist
